@@ -269,7 +269,15 @@ func genC17(g *Gen, tier string) *Program {
 							}
 						}
 					}
-					if g.Bool(35) {
+					emptySpec := g.Bool(8)
+					if emptySpec {
+						// the caller passes an empty (not nil) specification: that means the
+						// scope's defaults, tally's default duration buckets on this stack
+						// (op.B is what the histogram is expected to have)
+						spec = &BucketSpec{Dur: true, Durs: append([]int64(nil), tallyDefaultDurs...)}
+						op.Str = "empty"
+					}
+					if g.Bool(35) && !emptySpec {
 						op.N = -1 // the caller builds every bucket set in one scratch slice
 					}
 					if !conflict {
